@@ -145,3 +145,63 @@ def _(c):
               " (self.val is other.val or (safe_equals(self.val, other.val) and type(self.val) is type(other.val)) or not is_error(super_can_assign(self, other, ctx))))",
               name="a_literal_accepts_the_same_object_or_an_equal_one_of_the_same_type")
     c.ensures(f"implies({plain}, " + "implies(not is_error(result) and static(self) and static(other), subset(other, self)))", name="sound")
+
+
+@contract("pyanalyze.value.SequenceValue.can_assign", props=P4)
+def _(c):
+    c.returns("val")
+    c.functional = True
+    c.fn_name = "can_assign"
+    c.fieldspec("typ", "val")
+    c.fieldspec("members", "seq[pair[bool,obj:Value]]")
+    c.callee("replace_known_sequence_value", lambda k: (k.param("value", "val"), k.returns("val"), setattr(k, "functional", True), setattr(k, "fn_name", "replace_known_sequence_value")))
+    c.callee("super().can_assign", lambda k: (k.param("other", "val"), k.param("ctx", "val"), k.returns("val")))
+    c.callee("unify_bounds_maps", lambda k: (k.param("maps", "seq"), k.returns("val"), k.ensures("not is_error(result)")))
+    c.let("o", "replace_known_sequence_value(other)")
+    c.let("tobj", "self.get_type_object(ctx)")
+    seqv = "isa(o, SequenceValue)"
+    n = "len(self.members)"
+    nominal = "(not is_error(tobj.can_assign(self, o, ctx)))"
+    members_ok = ("all(self.members[i][0] == o.members[i][0] and not is_error(self.members[i][1].can_assign(o.members[i][1], ctx)) for i in range(len(self.members)))")
+    c.loop(0, invariant=[("members_so_far_accepted", "all(self.members[i][0] == other.members[i][0] and not is_error(self.members[i][1].can_assign(other.members[i][1], ctx)) for i in range(_k0))")])
+    # a literal / heterogeneous sequence type accepts another one exactly when the container class fits, the lengths agree and
+    # the members match position by position (single with single, unpacked with unpacked)
+    c.ensures(f"implies({seqv}, (not is_error(result)) == ({nominal} and {n} == len(o.members) and {members_ok}))",
+              name="positional_sequences_accepted_iff_class_length_and_members_match")
+    c.ensures(f"implies({seqv} and {n} != len(o.members), is_error(result))", name="different_lengths_are_rejected")
+    c.assume("unify_bounds_maps of the members' bounds maps is a bounds map (C04 kernel unify_bounds_maps: total); the non-sequence case delegates to GenericValue.can_assign (dispatch contract)")
+
+
+@contract("method:get_generic_args_for_type", props=P4, kind="assumed")
+def _(c):
+    c.param("self", "val"); c.param("typ", "val"); c.param("ctx", "val")
+    c.returns("opt[seq[obj:Value]]")
+    c.functional = True
+    c.assume("TypedValue.get_generic_args_for_type(typ, ctx): the type arguments with which the value's class instantiates the generic base `typ` (None when it is not a generic base); a pure function of its operands")
+
+
+@contract("pyanalyze.value.GenericValue.can_assign", props=P4)
+def _(c):
+    c.returns("val")
+    c.functional = True
+    c.fn_name = "can_assign"
+    c.fieldspec("typ", "val")
+    c.fieldspec("args", "seq[obj:Value]")
+    c.fieldspec("val", "val")
+    c.callee("replace_known_sequence_value", lambda k: (k.param("value", "val"), k.returns("val"), setattr(k, "functional", True), setattr(k, "fn_name", "replace_known_sequence_value")))
+    c.callee("super().can_assign", lambda k: (k.param("other", "val"), k.param("ctx", "val"), k.returns("val"), setattr(k, "functional", True), setattr(k, "fn_name", "TypedValue.can_assign.super")))
+    c.callee("unify_bounds_maps", lambda k: (k.param("maps", "seq"), k.returns("val"), k.ensures("not is_error(result)")))
+    c.callee("self.maybe_specify_error", lambda k: (k.param("self", "val"), k.param("i", "val"), k.param("other", "val"), k.param("error", "val"), k.param("ctx", "val"), k.returns("obj:CanAssignError")))
+    c.callee("TypedValue", lambda k: (k.param("t", "val"), k.returns("obj:TypedValue"), setattr(k, "functional", True), setattr(k, "fn_name", "new_TypedValue"), k.ensures("result.typ is t")))
+    c.let("o0", "replace_known_sequence_value(other)")
+    c.let("o", "ite(isa(o0, KnownValue), TypedValue(type(o0.val)), o0)")
+    c.let("ga", "o.get_generic_args_for_type(self.typ, ctx)")
+    typed = "(isa(o, TypedValue) and not isinstance(o.typ, super))"
+    c.loop(0, invariant=[("arguments_so_far_accepted", "all(not is_error(self.args[i].can_assign(generic_args[i], ctx)) for i in range(_k0)) and len(bounds_maps) == _k0")])
+    # a literal is compared through its class (a str literal is an Iterable[str], not an Iterable[int]): once the other value is
+    # (re-expressed as) a class with known generic arguments for this origin, it is accepted exactly when every type argument is
+    c.ensures(f"implies({typed} and ga is not None and len(self.args) == len(ga) and len(self.args) > 0,"
+              " (not is_error(result)) == all(not is_error(self.args[i].can_assign(ga[i], ctx)) for i in range(len(self.args))))",
+              name="accepted_iff_every_type_argument_accepts_the_others")
+    c.ensures(f"implies({typed} and ga is not None and len(self.args) == len(ga) and len(self.args) == 0, is_error(result))", name="no_arguments_no_match")
+    c.assume("replace_known_sequence_value / get_generic_args_for_type / the TypedValue constructor are functional callees; when the other value's class has no known generic arguments for this origin the decision is TypedValue.can_assign's (nominal)")
